@@ -43,6 +43,7 @@ func DefaultConfig() *Config {
 		BenignGlobals: map[string]bool{"errors.errorType": true, "google.golang.org/protobuf/runtime/protoimpl.X": true},
 		ZeroFuncs: map[string]bool{
 			"github.com/buildbarn/bb-storage/pkg/util.DecimalExponentialBuckets": true,
+			RepoModule + "/pkg/util.GetBrowserURL":                              true, // only used in human-readable messages
 		},
 	}
 	for _, p := range []string{"math", "math/bits", "strings", "bytes", "sort", "slices", "strconv", "unicode", "unicode/utf8",
